@@ -109,9 +109,19 @@ def _strip(e):
             return e
 
 
-def _partner(proj, m, logcall):
-    """If log(X) is multiplied/contracted with X itself return a description, else None."""
+def _log_argument(logcall, q):
+    """the quantity whose logarithm is taken: X for log(X), 1 + X (or 1 - Y for X = -Y) for log1p(X)"""
     X = logcall.args[0]
+    if q and q.endswith('log1p'):
+        if isinstance(X, ast.UnaryOp) and isinstance(X.op, ast.USub):
+            return ast.BinOp(left=ast.Constant(value=1), op=ast.Sub(), right=X.operand)
+        return ast.BinOp(left=ast.Constant(value=1), op=ast.Add(), right=X)
+    return X
+
+
+def _partner(proj, m, logcall, X=None):
+    """If log(X) is multiplied/contracted with X itself return a description, else None."""
+    X = logcall.args[0] if X is None else X
     xd = ast.dump(_strip(X))
     node = logcall
     p = getattr(node, '_parent', None)
@@ -164,15 +174,15 @@ def f1(proj, rep, modules):
             if not isinstance(n, ast.Call) or len(n.args) < 1:
                 continue
             q = _ext(proj, m, n)
-            if q not in LOG_FUNCS:
+            if q not in LOG_FUNCS and q not in ('numpy.log1p', 'torch.log1p', 'math.log1p'):
                 continue
             nlog += 1
-            X = n.args[0]
-            g = guard_kind(proj, m, X)
+            X = _log_argument(n, q)
+            g = guard_kind(proj, m, X) if X is n.args[0] else None
             if g:
                 rep.ok('F1', fi.qual, f'log argument guarded in place by {g}', m, n)
                 continue
-            part = _partner(proj, m, n)
+            part = _partner(proj, m, n, X)
             if part is None:
                 continue
             npat += 1
